@@ -4,12 +4,14 @@ import AsyncsshModel.Model.Forward
 namespace AsyncsshModel.Gen.C20
 open AsyncsshModel AsyncsshModel.Forward
 
-/-- which credential checks guard each request kind (key permission, certificate permission, permitopen) -/
+/-- which checks guard each request kind: key permission, certificate permission, permitopen; the largest
+    port number the handler lets through (`if <port> > N: <deny>`), and whether it refuses a path name with a
+    NUL inside -/
 def checksOf : ReqKind → Checks
-  | .directTcpip => ⟨true, true, true⟩
-  | .tcpipForward => ⟨true, true, false⟩
-  | .directStreamlocal => ⟨true, true, false⟩
-  | .streamlocalForward => ⟨true, true, false⟩
+  | .directTcpip => { key := true, cert := true, permitopen := true, maxPort := some 65535, pathNul := false }
+  | .tcpipForward => { key := true, cert := true, permitopen := false, maxPort := some 65535, pathNul := false }
+  | .directStreamlocal => { key := true, cert := true, permitopen := false, maxPort := none, pathNul := true }
+  | .streamlocalForward => { key := true, cert := true, permitopen := false, maxPort := none, pathNul := false }
 
 /-- all credential checks of the handler come before the application callback -/
 def appAskedAfterChecks : ReqKind → Bool
